@@ -19,7 +19,7 @@ INPUT_TRUST = [
     "modelled, validated by the detect/reader streams: Go's unicode/utf8.DecodeRune/FullRune, strconv.Atoi saturation, leftmost-first matching of the two fixed regular expressions",
 ]
 RENDER_TRUST = [
-    "text metric: one cell per byte (ASCII); ansi.StringWidth/Truncate are library code and are exercised only through the streams",
+    "text metric: one cell per byte except the bytes of escape sequences, which take none (Tea/Prelude/Ansi.lean models ansi.StringWidth/Truncate on printable ASCII + CSI sequences; multi-byte and wide characters are outside the model)",
     "terminal semantics of Tea/VT (xterm-style pending wrap, erase from cursor, 1049 save/restore, no reflow), cross-checked against the Go interpreter by the `vt` stream",
 ]
 RUNTIME_TRUST = [
@@ -29,7 +29,14 @@ RUNTIME_TRUST = [
 DETECT = {"name": "detect", "quick": 40000, "thorough": 400000}
 READER = {"name": "reader", "quick": 8000, "thorough": 60000}
 RENDER = {"name": "render", "quick": 3000, "thorough": 60000}
-VT = {"name": "vt", "quick": 1500, "thorough": 30000}
+VT = {"name": "vt", "quick": 2500, "thorough": 30000}
+# the byte-exact stream as a source of histories for the screen oracles only: a disagreement in
+# the BYTES (with the same terminal state after every operation, which `vt` checks) does not
+# concern a property about what the terminal shows
+# C19 is an upper bound on what is written: the tie it needs is one-sided (per operation the
+# implementation writes at most as many bytes as the model, whose output the theorems bound)
+RENDER_LE = {"name": "render", "quick": 3000, "thorough": 60000, "cmp": "bytes-le"}
+RENDER_INFO = {"name": "render", "quick": 3000, "thorough": 60000, "informational": True}
 GLUE = {"name": "glue", "quick": 250, "thorough": 4000}
 PTRACE = {"name": "ptrace", "quick": 150, "thorough": 3000}
 LIFE = {"name": "life", "quick": 100, "thorough": 600}
@@ -44,8 +51,8 @@ _CFG = {
     "C03": {"scenarios": ["seq"], "trusted": RUNTIME_TRUST},
     "C04": {"scenarios": ["term", "pty"], "streams": [LIFE, READER], "trusted": RUNTIME_TRUST},
     "C05": {"scenarios": ["modes", "exec", "pty"], "streams": [GLUE], "trusted": RENDER_TRUST},
-    "C06": {"streams": [RENDER, VT], "rule": RENDER_RULE, "trusted": RENDER_TRUST},
-    "C07": {"streams": [RENDER], "scenarios": ["final"], "rule": RENDER_RULE, "trusted": RENDER_TRUST},
+    "C06": {"streams": [VT, RENDER_INFO], "rule": RENDER_RULE, "trusted": RENDER_TRUST},
+    "C07": {"streams": [VT, RENDER_INFO], "scenarios": ["final"], "rule": RENDER_RULE, "trusted": RENDER_TRUST},
     "C08": {"streams": [DETECT, READER], "rule": INPUT_RULE, "trusted": INPUT_TRUST},
     "C09": {"streams": [DETECT, READER], "rule": INPUT_RULE, "trusted": INPUT_TRUST,
             "assumptions": ["the reader goroutine's cancellation (ctx.Done arm of the send) is covered by the C04 scenarios, not by this model"]},
@@ -53,12 +60,12 @@ _CFG = {
     "C11": {"streams": [DETECT, READER], "rule": INPUT_RULE, "trusted": INPUT_TRUST},
     "C12": {"scenarios": ["modes"], "streams": [GLUE], "trusted": RENDER_TRUST},
     "C13": {"scenarios": ["api"], "streams": [LIFE], "trusted": RUNTIME_TRUST},
-    "C14": {"streams": [RENDER, VT], "rule": RENDER_RULE, "trusted": RENDER_TRUST},
+    "C14": {"streams": [VT, RENDER_INFO], "rule": RENDER_RULE, "trusted": RENDER_TRUST},
     "C15": {"streams": [READER], "rule": INPUT_RULE, "trusted": INPUT_TRUST},
     "C16": {"scenarios": ["filter"], "streams": [PTRACE], "trusted": RUNTIME_TRUST},
     "C17": {"scenarios": ["exec"], "streams": [GLUE], "trusted": RENDER_TRUST + ["input hand-over to the exec'd command depends on cancelreader/epoll semantics: observed on an os.Pipe, not proved"]},
     "C18": {"scenarios": ["pty", "term", "sigexec"], "trusted": RUNTIME_TRUST + ["kernel signal delivery, os/signal.Notify, TIOCGWINSZ/SIGWINCH are outside the model: observed on a pty, not proved"]},
-    "C19": {"streams": [RENDER, {"name": "fps", "quick": 2000, "thorough": 100000}], "rule": RENDER_RULE, "trusted": RENDER_TRUST},
+    "C19": {"streams": [RENDER_LE, {"name": "fps", "quick": 2000, "thorough": 100000}], "rule": RENDER_RULE, "trusted": RENDER_TRUST},
     "C20": {"streams": [{"name": "every", "quick": 6000, "thorough": 200000}], "scenarios": ["timing"],
             "rule": "every: Every's delay expression evaluated by Go's time package vs the Lean model on boundary instants (+-1ns), zero/negative/huge durations and seeded random instants; timing: real Tick/Every commands. distinct = distinct (instant, duration) lines; non-trivial = positive duration",
             "trusted": ["Go timers do not fire before their duration has elapsed (Timer.notEarly hypothesis; sampled by the timing scenario)"]},
